@@ -85,18 +85,21 @@ Print Assumptions C02_aesni_key_expand_defined.
 (* ---------------------------------------------------------------- the stream, any block function *)
 (* M1a: init2 establishes the invariant from ANY prior state (pblk[8..14] are not initialised) *)
 Theorem C02_ctr_inv_init2 : forall (E : list N -> list N) nonce any,
-  st_wf any -> ctr_inv E nonce 0 (init2 ctr_init_index ctr_init_byte nonce any).
+  st_wf any -> ctr_inv E nonce 0 0 (init2 ctr_init_index ctr_init_byte nonce any).
 Proof. exact init2_inv. Qed.
 Print Assumptions C02_ctr_inv_init2.
 
 (* M1b: every call, of any size, on either path, preserves it and writes input XOR the keystream
-   bytes total .. total+len-1 *)
+   bytes total .. total+len-1.  (ctr_inv E nonce start total s: the object was (re-)initialised at
+   stream position start - 0 for init2, a block boundary 16*B for the harness's white-box seek -
+   and is now at position total.) *)
 Theorem C02_ctr_inv_stream : forall (E : list N -> list N),
   (forall b, length (E b) = 16%nat) ->
-  forall nonce hw total s inp,
-    ctr_inv E nonce total s -> total + N.of_nat (length inp) < two64 ->
+  forall nonce start, start mod 16 = 0 ->
+  forall hw total s inp,
+    ctr_inv E nonce start total s -> total + N.of_nat (length inp) < two64 ->
     exists s', stream_cfg E hw s inp = Ok (s', xor_list inp (ks_range E nonce total (length inp))) /\
-               ctr_inv E nonce (total + N.of_nat (length inp)) s'.
+               ctr_inv E nonce start (total + N.of_nat (length inp)) s'.
 Proof. exact stream_cfg_spec. Qed.
 Print Assumptions C02_ctr_inv_stream.
 
@@ -160,6 +163,30 @@ Theorem C02_aesctr_aesni_is_ctr_of_fips197 : forall key k nonce any chunks,
     map (@length N) outs = map (@length N) chunks.
 Proof. exact aesctr_aesni_is_ctr_of_fips197. Qed.
 Print Assumptions C02_aesctr_aesni_is_ctr_of_fips197.
+
+(* the object positioned at block B by the correspondence harness (stream->bytectr = 16*B written
+   right after init2; not a library operation): it produces the spec's keystream from block B on.
+   This is the statement the white-box seek cases of the correspondence run rely on. *)
+Theorem C02_aesctr_aesni_seek_is_ctr_of_fips197 : forall key k nonce B any chunks,
+  x_key_expand_aesni key = Some k ->
+  st_wf any -> 16 * B + N.of_nat (length (concat chunks)) < two64 ->
+  exists s' outs,
+    stream_all (x_encrypt_block_aesni k) true (x_seek (16 * B) (x_init2 nonce any)) chunks = Ok (s', outs) /\
+    concat outs = ctr_spec_from (AES_encrypt key) nonce B (concat chunks) /\
+    map (@length N) outs = map (@length N) chunks.
+Proof. exact aesctr_aesni_seek_is_ctr_of_fips197. Qed.
+Print Assumptions C02_aesctr_aesni_seek_is_ctr_of_fips197.
+
+Theorem C02_ctr_seek_stream_correct : forall (E : list N -> list N),
+  (forall b, length (E b) = 16%nat) ->
+  forall hw nonce B any chunks,
+    st_wf any -> 16 * B + N.of_nat (length (concat chunks)) < two64 ->
+    exists s' outs,
+      stream_all E hw (seek (16 * B) (init2 ctr_init_index ctr_init_byte nonce any)) chunks = Ok (s', outs) /\
+      concat outs = ctr_spec_from E nonce B (concat chunks) /\
+      map (@length N) outs = map (@length N) chunks.
+Proof. exact ctr_seek_stream_correct. Qed.
+Print Assumptions C02_ctr_seek_stream_correct.
 
 (* software build, partial: FIPS-197 is ASSUMED for OpenSSL's block function (E := AES_encrypt key);
    what is proved is the portable loop of crypto_aesctr.c around it *)
